@@ -149,6 +149,7 @@ func Main() (retcode int) { //nolint:funlen // we do have quite a lot of flags a
 	options.All = true
 	s := eval.NewState()
 	s.NoReg = *noRegister
+	s.MaxDepth = options.MaxDepth // file mode honors -max-depth like the other modes.
 	if options.ShebangMode {
 		script := flag.Arg(0)
 		// remaining := flag.Args()[1:] // actually let's also pass the name of the script as arg[0]
